@@ -203,3 +203,95 @@ package k8s
 //@     invariant sub: forall k string :: {seen(k)} seen(k) ==> k in ns.Labels
 //@     invariant dom: forall k string :: {k in n.Labels} (k in n.Labels) == seen(k)
 //@     invariant vals: forall k string :: {n.Labels[k]} seen(k) ==> n.Labels[k] == ns.Labels[k]
+
+// ---------------------------------------------------------------------------------------------
+// NetworkPolicy rule ports: one specification (portMatch) for the list side and the eval side (C01, C03)
+// ---------------------------------------------------------------------------------------------
+
+//@ import intstr "k8s.io/apimachinery/pkg/util/intstr"
+
+// input validity V (DESIGN section 5): protocols TCP/UDP/SCTP, numeric ports within 1..65535, endPort >= port
+//@ pred validRP(rp netv1.NetworkPolicyPort) = (rp.Protocol == nil || isProto(deref(rp.Protocol)))
+//@     && ((rp.Port != nil && rp.Port.Type != intstr.String) ==> (1 <= rp.Port.IntVal && rp.Port.IntVal <= 65535
+//@            && (rp.EndPort != nil ==> (rp.Port.IntVal <= deref(rp.EndPort) && deref(rp.EndPort) <= 65535))))
+//@ pred validRPs(rps []netv1.NetworkPolicyPort) = forall k int :: {rps[k]} (0 <= k && k < len(rps)) ==> validRP(rps[k])
+//@ pred validPodPorts(pod *Pod) = forall k int :: {pod.Ports[k]} (0 <= k && k < len(pod.Ports)) ==>
+//@     (1 <= pod.Ports[k].ContainerPort && pod.Ports[k].ContainerPort <= 65535 && (pod.Ports[k].Protocol == "" || isProto(pod.Ports[k].Protocol)))
+
+//@ fun rpProto(rp netv1.NetworkPolicyPort) string = if rp.Protocol == nil then "TCP" else deref(rp.Protocol)
+//@ fun cpProto(cp v1.ContainerPort) string = if cp.Protocol == "" then "TCP" else cp.Protocol
+// the first container port of the pod carrying that name decides protocol and number
+//@ fun namedMatch(ports []v1.ContainerPort, name string, q string, n int) bool = exists i int :: {ports[i]} 0 <= i && i < len(ports) && ports[i].Name == name
+//@     && (forall j int :: {ports[j]} (0 <= j && j < i) ==> ports[j].Name != name) && cpProto(ports[i]) == q && ports[i].ContainerPort == n
+// a destination that is a real pod (named ports resolve on it), an IP block, or absent
+//@ fun dstPod(dst Peer) *Pod = if dyntype(dst, *PodPeer) then unwrap(dst, *PodPeer).Pod else nil
+//@ pred realDst(dst Peer) = (dyntype(dst, *PodPeer) && unwrap(dst, *PodPeer) != nil && dstPod(dst) != nil && !dstPod(dst).FakePod && validPodPorts(dstPod(dst)))
+//@     || (dyntype(dst, *IPBlockPeer) && unwrap(dst, *IPBlockPeer) != nil)
+//@ fun rulePortMatch(rp netv1.NetworkPolicyPort, dst Peer, q string, n int) bool = q == rpProto(rp) && 1 <= n && n <= 65535 &&
+//@     (if rp.Port == nil then true else (if rp.Port.Type == intstr.String
+//@         then (dyntype(dst, *PodPeer) && namedMatch(dstPod(dst).Ports, rp.Port.StrVal, q, n))
+//@         else (rp.Port.IntVal <= n && n <= (if rp.EndPort == nil then rp.Port.IntVal else deref(rp.EndPort)))))
+//@ fun portMatch(rps []netv1.NetworkPolicyPort, dst Peer, q string, n int) bool = isPP(q, n) &&
+//@     (len(rps) == 0 || (exists k int :: {rps[k]} 0 <= k && k < len(rps) && rulePortMatch(rps[k], dst, q, n)))
+
+//@ func getProtocolStr
+//@   ensures [C01,C03] def: res == (if p == nil || deref(p) == "" then "TCP" else deref(p))
+
+//@ func (*Pod).ConvertPodNamedPort
+//@   requires pod != nil
+//@   ensures [C01,C03] found: forall i int :: {pod.Ports[i]} (0 <= i && i < len(pod.Ports) && pod.Ports[i].Name == namedPort
+//@         && (forall j int :: {pod.Ports[j]} (0 <= j && j < i) ==> pod.Ports[j].Name != namedPort)) ==> (protocol == cpProto(pod.Ports[i]) && portNum == pod.Ports[i].ContainerPort)
+//@   ensures [C01,C03] missing: (forall i int :: {pod.Ports[i]} (0 <= i && i < len(pod.Ports)) ==> pod.Ports[i].Name != namedPort) ==> (protocol == "" && portNum == 0 - 1)
+//@   ensures [C01,C03] some: (protocol == "" && portNum == 0 - 1) || (exists i int :: 0 <= i && i < len(pod.Ports) && pod.Ports[i].Name == namedPort
+//@         && (forall j int :: {pod.Ports[j]} (0 <= j && j < i) ==> pod.Ports[j].Name != namedPort) && protocol == cpProto(pod.Ports[i]) && portNum == pod.Ports[i].ContainerPort)
+//@   loop 1:
+//@     invariant idx: 0 - 1 <= rangeindex && rangeindex < len(pod.Ports) + 1
+//@     invariant none: forall j int :: {pod.Ports[j]} (0 <= j && j <= rangeindex) ==> pod.Ports[j].Name != namedPort
+
+//@ func doesRulePortContain
+//@   ensures [C03] def: res == (foldEq(ruleProtocol, otherProtocol) && !(ruleStartPort == 0 - 1 && ruleEndPort == 0 - 1) && ruleStartPort <= otherPort && otherPort <= ruleEndPort)
+
+//@ pred okDst(dst Peer) = dst == nil || realDst(dst)
+//@ fun rpEnd(rp netv1.NetworkPolicyPort) int = if rp.EndPort == nil then rp.Port.IntVal else deref(rp.EndPort)
+
+//@ func (*NetworkPolicy).getPortsRange
+//@   requires np != nil && np.NetworkPolicy != nil && okDst(dst) && validRP(rulePort) && rulePort.Port != nil
+//@   ensures [C01,C03] numeric: rulePort.Port.Type != intstr.String ==> (err == nil && start == rulePort.Port.IntVal && end == rpEnd(rulePort) && portName == "")
+//@   ensures [C01,C06] namednil: (rulePort.Port.Type == intstr.String && dst == nil) ==> (err == nil && start == 0 - 1 && end == 0 - 1 && portName == rulePort.Port.StrVal)
+//@   ensures [C01] namedip: (rulePort.Port.Type == intstr.String && dyntype(dst, *IPBlockPeer)) ==> err != nil
+//@   ensures [C01,C03] namedpod: (rulePort.Port.Type == intstr.String && dyntype(dst, *PodPeer)) ==> (err == nil && portName == rulePort.Port.StrVal
+//@         && ((start == 0 - 1 && end == 0 - 1 && (forall n int :: {namedMatch(dstPod(dst).Ports, rulePort.Port.StrVal, rpProto(rulePort), n)} !namedMatch(dstPod(dst).Ports, rulePort.Port.StrVal, rpProto(rulePort), n)))
+//@             || (start == end && 1 <= start && start <= 65535 && namedMatch(dstPod(dst).Ports, rulePort.Port.StrVal, rpProto(rulePort), start))))
+
+//@ func (*NetworkPolicy).ruleConnsContain
+//@   requires np != nil && np.NetworkPolicy != nil && realDst(dst) && validRPs(rulePorts)
+//@   ensures [C03] all: (res1 == nil && len(rulePorts) == 0) ==> res0
+//@   ensures [C03] def: (res1 == nil && len(rulePorts) != 0 && !(protocol == "" && port == "") && 1 <= atoiVal(port) && atoiVal(port) <= 65535) ==>
+//@         (res0 == (exists q string :: isProto(q) && foldEq(q, protocol) && portMatch(rulePorts, dst, q, atoiVal(port))))
+//@   loop 1:
+//@     invariant idx: 0 - 1 <= rangeindex && rangeindex < len(rulePorts) + 1 && parseInt32Ok(port) && intPort == atoiVal(port)
+//@     invariant none: forall k int :: {rulePorts[k]} (0 <= k && k <= rangeindex) ==>
+//@         !(exists q string :: isProto(q) && foldEq(q, protocol) && rulePortMatch(rulePorts[k], dst, q, atoiVal(port)))
+
+//@ func isPeerRepresentative
+//@   requires realDst(peer)
+//@   ensures [C01] real: !res
+
+//@ func (*NetworkPolicy).ruleConnections
+//@   requires np != nil && np.NetworkPolicy != nil && realDst(dst) && validRPs(rulePorts)
+//@   modifies *
+//@   ensures [C01,C03,C05] wf: wfCS(res0) && fresh(res0) && freshSep(res0) && allKept()
+//@   ensures [C01,C03,C14] pts: res1 == nil ==> (forall q v1.Protocol, n int :: {iset(res0.AllowedProtocols[q].Ports)[n]}
+//@         pts(res0, q, n) == portMatch(rulePorts, dst, q, n))
+//@   ensures [C01] named: res1 == nil ==> (forall q v1.Protocol, s string :: {s in res0.AllowedProtocols[q].NamedPorts} !npts(res0, q, s))
+//@   loop 1:
+//@     invariant idx: 0 - 1 <= rangeindex && rangeindex < len(rulePorts) + 1 && len(rulePorts) > 0
+//@     invariant wf: wfCS(res) && fresh(res) && !res.AllowAll && freshSep(res) && allKept()
+//@     invariant pts: forall q v1.Protocol, n int :: {iset(res.AllowedProtocols[q].Ports)[n]}
+//@         ptsP(res, q, n) == (isPP(q, n) && (exists k int :: {rulePorts[k]} 0 <= k && k <= rangeindex && rulePortMatch(rulePorts[k], dst, q, n)))
+//@     invariant named: forall q v1.Protocol, s string :: {s in res.AllowedProtocols[q].NamedPorts} !npts(res, q, s)
+//@   at call 12 use: wf, pts, npts, others
+//@   before call 12:
+//@     assert ports: wfPS(ports) && inRange(ports) && noNames(ports) && psApart(res, ports) && wfCS(res) && !res.AllowAll && freshSep(res) && allKept()
+//@     assert nums: forall n int :: {iset(ports.Ports)[n]} iset(ports.Ports)[n] == rulePortMatch(rulePorts[rangeindex], dst, protocol, n)
+//@     assert proto: protocol == rpProto(rulePorts[rangeindex]) && isProto(protocol) && 0 <= rangeindex && rangeindex < len(rulePorts)
